@@ -783,3 +783,7 @@ impl<'a, 'b> Deserializer<'a, 'b> {
         Ok(ChannelCookie(Uuid::from_bytes(bytes)))
     }
 }
+
+#[cfg(kani)]
+#[path = "/verif/harness/core/deserializer.rs"]
+mod verif;
